@@ -1,5 +1,5 @@
 SPECIFICATION SpecGen
-CONSTANT Deviations = {"CloseDoesNotReanalyse", "RenameTaintsCache", "StaleDiagnosticsForDroppedFile", "PrepareRenameSlicesPastEol", "SourceLinePastEof", "CompletionSplitsInsideChar"}
+CONSTANT Deviations = {"CloseDoesNotReanalyse", "RenameTaintsCache", "StaleDiagnosticsForDroppedFile", "PrepareRenameSlicesPastEol", "SourceLinePastEof", "CompletionSplitsInsideChar", "DidChangeFirstEntryWins", "NonFileUriPanics"}
 CONSTANT MaxHist = 3
 CONSTRAINT HistBound
 CONSTRAINT GenInit
